@@ -1,0 +1,6 @@
+//go:build !verif
+
+package dedup
+
+// verifPoint marks a scheduling point of Limiter.Run; it is a no-op unless built with the tag `verif`.
+func verifPoint(point string, input interface{}) {}
